@@ -170,10 +170,10 @@ Proof.
 Qed.
 
 (* ---- the state: the format map has been made whenever the section is one that stores into it ---- *)
-Definition c_inv (cs : cstate) : Prop := (c_sect cs = SEvents \/ c_sect cs = SStyles) -> c_fmt cs <> None.
+Definition c_inv (cs : acstate) : Prop := (c_sect cs = SEvents \/ c_sect cs = SStyles) -> c_fmt cs <> None.
 (* the checked step is related to the step of Model/Ssa.v: same class, same state up to the representation of the
    format map, never a panic; the invariant is kept *)
-Definition rel (r : res cstate) (r0 : res rstate) : Prop :=
+Definition rel (r : res acstate) (r0 : res rstate) : Prop :=
   match r, r0 with
   | Ok cs, Ok s => c_erase cs = s /\ c_inv cs
   | Err k, Err k' => k = k'
@@ -186,7 +186,7 @@ Lemma ssa_dispatch_c_ok cs h c : c_inv cs -> rel (ssa_dispatch_c cs h c) (kv_dis
 Proof.
   intros Hinv. destruct cs as [sect fmt info sts evs]. unfold c_inv in Hinv. cbn [c_sect c_fmt] in Hinv.
   unfold ssa_dispatch_c, kv_dispatch, c_erase. cbn [c_sect c_fmt c_info c_styles c_events].
-  destruct sect; try (apply (rel_same (mkCstate _ fmt info sts evs)); exact Hinv).
+  destruct sect; try (apply (rel_same (mkAcstate _ fmt info sts evs)); exact Hinv).
   - (* events *)
     destruct fmt as [l|]; [|exfalso; apply Hinv; [left; reflexivity | reflexivity]]. cbn [fmt_read].
     destruct (str_eqb h n_format).
@@ -270,9 +270,9 @@ Qed.
 Lemma read_ssa_lines_h_ok ls e : read_ssa_lines_h (Ok tt) (Ok tt) ls e = read_ssa_lines ls e.
 Proof.
   unfold read_ssa_lines_h, read_ssa_lines.
-  assert (H0 : c_inv cstate0) by (intros [H|H]; discriminate).
-  pose proof (ssa_run_h_ok ls cstate0 true H0) as Hr. unfold rel in Hr. change (c_erase cstate0) with rstate0 in Hr.
-  destruct (ssa_run_h (Ok tt) (Ok tt) cstate0 true ls) as [cs|k|p]; destruct (ssa_run rstate0 true ls) as [s|k'|p'];
+  assert (H0 : c_inv acstate0) by (intros [H|H]; discriminate).
+  pose proof (ssa_run_h_ok ls acstate0 true H0) as Hr. unfold rel in Hr. change (c_erase acstate0) with rstate0 in Hr.
+  destruct (ssa_run_h (Ok tt) (Ok tt) acstate0 true ls) as [cs|k|p]; destruct (ssa_run rstate0 true ls) as [s|k'|p'];
     try contradiction.
   - destruct Hr as [<- _]. destruct e; [reflexivity | apply finish_c_ok].
   - rewrite Hr. reflexivity.
@@ -448,8 +448,8 @@ Qed.
 Definition opts_nil : ssa_opts := mkSsaOpts None None.
 (* a nil OnInvalidLine called without the test of L197, on the line "no colon here" in the script info section *)
 Example unguarded_invalid_callback_panics :
-  ssa_kv_h (deref (so_invalid opts_nil) 198) (mkCstate SInfo None ainfo0 [] []) (s2l "no colon here"%string) = Panic 198 /\
-  ssa_kv_h (on_invalid_c opts_nil) (mkCstate SInfo None ainfo0 [] []) (s2l "no colon here"%string) = Ok (mkCstate SInfo None ainfo0 [] []).
+  ssa_kv_h (deref (so_invalid opts_nil) 198) (mkAcstate SInfo None ainfo0 [] []) (s2l "no colon here"%string) = Panic 198 /\
+  ssa_kv_h (on_invalid_c opts_nil) (mkAcstate SInfo None ainfo0 [] []) (s2l "no colon here"%string) = Ok (mkAcstate SInfo None ainfo0 [] []).
 Proof. split; vm_compute; reflexivity. Qed.
 Example unguarded_invalid_callback_panics_doc :
   read_ssa_lines_h (on_unknown_c opts_nil) (deref (so_invalid opts_nil) 198) [s2l "[Script Info]"%string; s2l "no colon here"%string] false = Panic 198 /\
